@@ -757,6 +757,7 @@ def run(prog, rep, tier, snap):
     from ..rules import valist
     rep.rule("R05.6", "the buffered writer never formats from a consumed va_list (records larger than the write buffer)", 1)
     valist.r_valist(prog, rep, "R05.6", only=("fdprintf",))
+    rep.call(valist.r_stale_room, prog, rep, "R05.6")
     from ..rules import state
     rep.rule("R05.9", "the serialiser carries no state from one task to the next (memo keys must cover every argument)", 1)
     rep.call(state.no_carried_state, prog, rep, "R05.9", "serialise")
@@ -766,6 +767,8 @@ def run(prog, rep, tier, snap):
     rep.rule("R10.7", "the byte behind a backslash reaches the task (shared with C10)", 1)
     rep.call(c10.r10_7, prog, rep, "R10.7", ("kept",))
     from . import c07
+    rep.rule("R07.13", "the serialiser converts a rule stream's proto instant before it compares it with cached occurrences (shared with C07)", 1)
+    rep.call(c07.r07_13, prog, rep)
     rep.rule("R07.1", "the zone handle of a DTSTART reads back as the zone whose TZID is written (shared with C07)", 2)
     rep.call(c07.r07_1, prog, rep)
 READY = True
